@@ -78,6 +78,10 @@ func (b *bucketObjectIterator) Seek(key gofakes3.VersionID) bool {
 
 	b.iter = nil
 	if b.data != nil && b.data.versionID == key {
+		// The current version is the last one of the key, so nothing of this
+		// key remains after the marker.
+		b.data = nil
+		b.done = true
 		return true
 	}
 
